@@ -2,7 +2,7 @@
 from .c11seq import Model, PRIMS, HALF, recipe
 from .common import muted
 
-KINDS = ['dup_iface_removed_shared', 'dup_iface_removed_used', 'disc_prim_then_drive', 'disc_struct_then_drive', 'disc_unrelated', 'drv_prim_prim', 'drv_same_leaf_twice', 'drv_same_block_twice', 'drv_wrap_then_outside', 'drv_outside_then_wrap',
+KINDS = ['drv_dynamic_first', 'drv_dynamic_second', 'drv_dynamic_class_late', 'dup_iface_removed_shared', 'dup_iface_removed_used', 'disc_prim_then_drive', 'disc_struct_then_drive', 'disc_unrelated', 'drv_prim_prim', 'drv_same_leaf_twice', 'drv_same_block_twice', 'drv_wrap_then_outside', 'drv_outside_then_wrap',
          'drv_leaf_then_block', 'drv_block_then_leaf', 'drv_two_ports_one_leaf', 'drv_inout', 'drv_interface',
          'dup_child', 'dup_wire', 'dup_wires', 'dup_rename', 'dup_reparent', 'dup_reparent_rename',
          'dup_iface_plain_first', 'dup_iface_twice', 'dup_iface_cross', 'dup_iface_then_plain']
@@ -136,11 +136,17 @@ class Gen:
         return self.new_wire(width=width)
 
     # ------------------------------------------------------------ op builders (return the op, not emitted)
-    def leaf_op(self, scope=None, name=None, cls=None, width=None, outs=None, inouts=None, ins=None):
-        cls = cls or self.rnd.choice(list(PRIMS) + ['HLeaf', 'HLeaf'])
+    def dyn_spec(self, mode=None, klass=None):
+        return dict(klass=klass or self.fresh('K'), mode=mode or self.rnd.choice(['inst_before', 'inst_before', 'class_attach']),
+                    meth=self.rnd.choice(['propagate', 'clock']))
+
+    def leaf_op(self, scope=None, name=None, cls=None, width=None, outs=None, inouts=None, ins=None, dyn=None):
+        cls = cls or self.rnd.choice(list(PRIMS) + ['HLeaf', 'HLeaf', 'Dyn', 'Dyn'])
         width = width or self.width()
+        if cls == 'Dyn' and dyn is None:
+            dyn = self.dyn_spec()       # by default a block that IS a primitive when its ports are declared
         if ins is None:
-            if cls == 'HLeaf':
+            if cls in ('HLeaf', 'Dyn'):
                 ins = [self.any_wire(width) for _ in range(self.rnd.randrange(0, 3))]
             elif cls == 'Mux2':
                 ins = [self.any_wire(1), self.any_wire(width), self.any_wire(width)]
@@ -148,12 +154,15 @@ class Gen:
                 ins = [self.any_wire(width) for _ in range(PRIMS[cls])]
         if outs is None:
             outs = [self.free_wire(width)]
-            if cls == 'HLeaf' and self.rnd.random() < 0.3:
+            if cls in ('HLeaf', 'Dyn') and self.rnd.random() < 0.3:
                 o2 = self.free_wire(width)
                 if o2 not in outs:
                     outs.append(o2)
-        return dict(op='leaf', cid=self.fresh('C'), scope=scope or self.scope(), name=name or self.fresh('u'), cls=cls,
-                    ins=ins, outs=outs, inouts=inouts or [])
+        op = dict(op='leaf', cid=self.fresh('C'), scope=scope or self.scope(), name=name or self.fresh('u'), cls=cls,
+                  ins=ins, outs=outs, inouts=inouts or [])
+        if cls == 'Dyn':
+            op['dyn'] = dyn
+        return op
 
     def cat_op(self, scope=None, name=None, blk=None, bind_outs=None, same_ins_as=None):
         src, entry, cfg = blk or self.rnd.choice(self.pool)
@@ -283,8 +292,15 @@ class Gen:
                 if w['name'] in self.m.wire_names[to] and to != w['scope']:
                     to = w['scope']
                 self.emit(dict(op='reparent', wid=wid, to=to))
-        elif r < 0.94:
+        elif r < 0.92:
             self.bg_disconnect()
+        elif r < 0.94:
+            # an AbstractLogic object that has no behaviour yet when its ports are declared is a plain container: its ports
+            # register nowhere, so even an already driven wire on its out port is accepted
+            w = self.width()
+            o = self.any_wire(w)
+            if self.m.wires[o]['driver'] != HALF:
+                self.emit(self.leaf_op(cls='Dyn', width=w, outs=[o], dyn=self.dyn_spec(mode=self.rnd.choice(['inst_after', 'plain']))))
         else:
             iid = self.iface()
             for _ in range(self.rnd.randrange(1, 4)):
@@ -388,7 +404,7 @@ class Gen:
         w = self.m.wires[x]['width']
         other = self.leaf_op(width=w, ins=None, outs=[self.free_wire(w, 1.0)])
         other['ins'] = [i for i in other['ins'] if i != x] or []
-        if other['cls'] != 'HLeaf' and len(other['ins']) != PRIMS.get(other['cls'], 0):
+        if other['cls'] not in ('HLeaf', 'Dyn') and len(other['ins']) != PRIMS.get(other['cls'], 0):
             other = self.leaf_op(cls='Constant', width=w, outs=other['outs'])
         self.emit(other)
         if f:
@@ -397,6 +413,32 @@ class Gen:
             y = other['outs'][0]
             self.emit(self.disc_op(y, other['cid']))
         return 1
+
+    def g_drv_dynamic_first(self, f):
+        """the first driver is an AbstractLogic object with instance- or class-bound behaviour attached before its ports"""
+        a = self.leaf_op(cls='Dyn')
+        self.emit(a)
+        x = a['outs'][0]
+        w = self.m.wires[x]['width']
+        if self.rnd.random() < 0.5:
+            self.emit(self.leaf_op(width=w, outs=[x if f else self.free_wire(w, 1.0)]))
+        else:
+            self.emit(self.wrap_op(target=x if f else self.free_wire(w, 1.0), depth=self.rnd.randrange(1, 3), width=w))
+
+    def g_drv_dynamic_second(self, f):
+        x = self.driven_by_leaf()
+        w = self.m.wires[x]['width']
+        self.emit(self.leaf_op(cls='Dyn', width=w, outs=[x if f else self.free_wire(w, 1.0)]))
+
+    def g_drv_dynamic_class_late(self, f):
+        """the class gets its behaviour only after a first instance (a plain container) already declared a port"""
+        k = self.fresh('K')
+        w = self.width()
+        self.emit(self.leaf_op(cls='Dyn', width=w, outs=[self.any_wire(w)] if self.rnd.random() < 0.5 else [], dyn=self.dyn_spec('plain', k)))
+        a = self.leaf_op(cls='Dyn', width=w, dyn=self.dyn_spec('class_attach', k))
+        self.emit(a)
+        x = a['outs'][0]
+        self.emit(self.leaf_op(width=w, outs=[x if f else self.free_wire(w, 1.0)]))
 
     def g_drv_prim_prim(self, f):
         x = self.driven_by_leaf()
